@@ -167,6 +167,9 @@ class Gen:
             return {'float': t}
         if k == 'str':
             s = self.rng.choice(v['strs'])
+            odd = [x for x in v['strs'] if '  ' in x or '\t' in x]
+            if odd and self.rng.random() < 0.25:
+                s = self.rng.choice(odd)     # whitespace inside the quotes must reach the matcher untouched
             if self.rng.random() < 0.2:
                 s = s + 'x'
             return {'str': s}
